@@ -9,7 +9,7 @@
     conversions and shifts (`evalPut`, `evalGet`: trusted transcription semantics), compute
     exactly the model's `beN` / `decI` / `decILittle`.  Proved once, for all byte values.
 -/
-import Golib.Prim.Ops
+import Golib.Prim.Extra
 import Golib.Gen.C01
 
 namespace C01Gen
@@ -240,5 +240,48 @@ theorem arrays_shape :
 
 theorem written_shape :
     Gen.C01.written = [("WriteBytes", ["+=len(b)"]), ("WriteByte", ["++"]), ("Write", ["+=sz"])] := by decide
+
+/-- `ReadDecimalLen` has the same case table as `ReadDecimal` plus an explicit 8 arm -/
+theorem decimalLen_shape :
+    Gen.C01.decimalLenR = ([(0, 0), (1, 1), (2, 2), (3, 3), (4, 4), (5, 5), (8, 8)], 8) := by decide
+
+/-- the model's `decDecimalLen` is the first-match evaluation of that table -/
+def decDecimalLenTbl (n : Nat) (tbl : List (Nat × Nat)) (dflt : Nat) : Nat :=
+  match tbl.find? (fun p => p.1 == n) with
+  | some p => p.2
+  | none => dflt
+
+theorem decDecimalLen_is_table (n : Nat) :
+    decDecimalLen n =
+      (match decDecimalLenTbl n Gen.C01.decimalLenR.1 Gen.C01.decimalLenR.2 with
+       | 0 => P.pure 0
+       | w => rdI w) := by
+  rw [decimalLen_shape]
+  unfold decDecimalLen decDecimalLenTbl
+  match n with
+  | 0 | 1 | 2 | 3 | 4 | 5 | 8 => rfl
+  | 6 | 7 => rfl
+  | n + 9 => simp [List.find?]
+
+/-- frame headers: reset buffer and counter, then source, version, project code, (hash | oid, key),
+    and the old buffer as int-length bytes — the call sequence `Writer.header` / `secureHeader` models -/
+theorem header_calls_shape :
+    lookup Gen.C01.callSeqs "WriteHeader" =
+      some ["buffer.Bytes", "buffer.Reset", "written=0", "WriteByte", "WriteByte", "WriteLong", "WriteLong", "WriteIntBytes"] ∧
+    lookup Gen.C01.callSeqs "WriteOneWayHeader" = lookup Gen.C01.callSeqs "WriteHeader" ∧
+    lookup Gen.C01.callSeqs "WriteSecureHeader" =
+      some ["buffer.Bytes", "buffer.Reset", "written=0", "WriteByte", "WriteByte", "WriteLong", "WriteInt", "WriteInt", "WriteIntBytes"] := by
+  decide
+
+theorem composite_calls_shape :
+    lookup Gen.C01.callSeqs "WriteIntBytes" = some ["WriteInt", "WriteInt", "WriteBytes"] ∧
+    lookup Gen.C01.callSeqs "WriteShortBytes" = some ["WriteShort", "WriteShort", "WriteBytes"] ∧
+    lookup Gen.C01.callSeqs "ReadIntBytes" = some ["ReadInt", "ReadBytes"] ∧
+    lookup Gen.C01.callSeqs "ReadIntBytesLimit" = some ["ReadInt", "ReadBytes"] ∧
+    lookup Gen.C01.callSeqs "ReadShortBytes" = some ["ReadShort", "ReadBytes"] ∧
+    lookup Gen.C01.callSeqs "ReadDecimalArray" = some ["ReadDecimal", "CheckCount", "ReadDecimal"] ∧
+    lookup Gen.C01.callSeqs "ReadDecimalArrayInt" = some ["ReadDecimal", "CheckCount", "ReadDecimal"] ∧
+    lookup Gen.C01.callSeqs "ReadTextShortLength" = some ["ReadUShort", "ReadBytes"] := by
+  decide
 
 end C01Gen
